@@ -18,6 +18,7 @@ Not decided: that a hooked module's decorators are the only instrumentation (C10
 from __future__ import annotations
 
 import ast
+import copy
 import itertools
 
 from ..core import AnalysisError, RuleContext, need, norm, short
@@ -45,7 +46,99 @@ def new_style_wrappers(m, r) -> list:
             if t.kind == "func" and t.target.qualname in impl_q and t.target.name != "modify_annotation":
                 out.append((f, t.target))
                 break
+            if t.kind == "func" and t.target.name == "__call__" and t.target.cls is not None and isinstance(c.func, ast.Name):
+                v = closure_view(m, f, c.func.id, t.target)
+                if v is not None:
+                    out.append((f, v))
+                    break
     return out
+
+
+_VIEWS: dict = {}
+
+
+def closure_view(m, user: FuncInfo, var: str, call_m: FuncInfo):
+    """The checking implementation written as a callable object (`impl = _Impl(fn, param_fn, ...)`,
+    `impl(args, kwargs, ...)`) seen as the closure it replaces: `self.X` in `__call__` becomes the
+    name that was passed for X where the object was built.  Only when that reading is exact: every
+    field is bound once, in `__init__`, to a parameter, never re-bound, and the object is built at one
+    place from plain names.  Returns a FuncInfo (not registered in the model) or None."""
+    key = (id(m), call_m.qualname, var)
+    if key in _VIEWS:
+        return _VIEWS[key]
+    _VIEWS[key] = None
+    cls = call_m.cls
+    init = m.lookup_method(cls, "__init__")
+    owner = user.parent if isinstance(user.parent, FuncInfo) else None
+    if init is None or owner is None:
+        return None
+    sites = [n for n in walk_scope(owner.node) if isinstance(n, ast.Assign) and len(n.targets) == 1 and isinstance(n.targets[0], ast.Name)
+             and n.targets[0].id == var]
+    if len(sites) != 1 or not isinstance(sites[0].value, ast.Call):
+        return None
+    ctor = sites[0].value
+    t = m.resolve_call(owner, ctor)
+    if t.kind != "class" or t.target is not cls or any(k.arg is None for k in ctor.keywords) or any(isinstance(a, ast.Starred) for a in ctor.args):
+        return None
+    iparams = [a.arg for a in init.node.args.posonlyargs + init.node.args.args][1:]
+    bound = {}
+    for i, a in enumerate(ctor.args):
+        if i < len(iparams):
+            bound[iparams[i]] = a
+    for k in ctor.keywords:
+        bound[k.arg] = k.value
+    if not all(isinstance(v, ast.Name) for v in bound.values()):
+        return None
+    me_i = init.params[0]
+    fields = {}
+    for st in init.body:
+        if isinstance(st, ast.Expr) and isinstance(st.value, ast.Constant):
+            continue
+        if isinstance(st, ast.Assign) and len(st.targets) == 1 and isinstance(st.targets[0], ast.Attribute) and isinstance(st.targets[0].value, ast.Name) \
+                and st.targets[0].value.id == me_i and isinstance(st.value, ast.Name) and st.value.id in bound and st.targets[0].attr not in fields:
+            fields[st.targets[0].attr] = bound[st.value.id].id
+        else:
+            return None  # __init__ does more than storing its parameters
+    # no other method re-binds a field
+    for mth in cls.methods.values():
+        if mth is init or not mth.params:
+            continue
+        for n in walk_scope(mth.node):
+            if isinstance(n, ast.Attribute) and isinstance(n.ctx, (ast.Store, ast.Del)) and isinstance(n.value, ast.Name) and n.value.id == mth.params[0]:
+                return None
+    me = call_m.params[0]
+    node = copy.deepcopy(call_m.node)
+
+    class Rw(ast.NodeTransformer):
+        ok = True
+
+        def visit_Attribute(self, n):
+            if isinstance(n.value, ast.Name) and n.value.id == me:
+                if n.attr in fields and isinstance(n.ctx, ast.Load):
+                    return ast.copy_location(ast.Name(id=fields[n.attr], ctx=ast.Load()), n)
+                Rw.ok = False
+                return n
+            return self.generic_visit(n)
+
+        def visit_Name(self, n):
+            if n.id == me:
+                Rw.ok = False  # the object itself escapes
+            return n
+
+    node = Rw().visit(node)
+    if not Rw.ok:
+        return None
+    a = node.args
+    if a.posonlyargs:
+        a.posonlyargs = a.posonlyargs[1:]
+    else:
+        a.args = a.args[1:]
+    # locals of __call__ must not shadow the names the fields stand for
+    fi = FuncInfo(node, call_m.module, owner, call_m.qualname)
+    if set(fields.values()) & (fi.local_names() | set(fi.params)):
+        return None
+    _VIEWS[key] = fi
+    return fi
 
 
 def is_passthrough_call(e, fname="fn") -> bool:
